@@ -692,8 +692,9 @@ func TestVP_C07_every_offset(t *testing.T) {
 	c.Exhaustive("all single-bit flips, single-byte deletions and duplications of 24 small snapshot encodings in both canonical forms")
 	gen := rapid.Custom(vpC07GenValid)
 	done := 0
+	shard, _ := kit.Shard() // each thorough shard sweeps its own 24 bases
 	for i := 1000; done < 24 && i < 3000; i++ {
-		r := gen.Example(i)
+		r := gen.Example(shard*3000 + i)
 		if r.TxCount > 4 {
 			continue
 		}
